@@ -459,11 +459,15 @@ func child(index int, resPath string) {
 	}
 	run4 := func(seed *core.Rand, budget int, start bool) (uuid.UUID, int, string, int) {
 		o := plangen.Opts{MaxBlocks: 2, MaxSeqs: 2, MaxActions: 2, MaxCheckActions: 2, GroupP: 0.3}
-		if crashFamily {
-			o = plangen.Opts{MaxBlocks: 1, MaxSeqs: 2, MaxActions: 2, MaxCheckActions: 1, GroupP: 0.25}
-		}
 		if bigShapes && index%2 == 1 {
 			o = plangen.Opts{MaxBlocks: 3, MaxSeqs: 3, MaxActions: 3, MaxCheckActions: 2, GroupP: 0.45}
+		}
+		if crashFamily {
+			// every j of the close is run: keep the plan at about 6-18 objects
+			o = plangen.Opts{MaxBlocks: 1, MaxSeqs: 2, MaxActions: 2, MaxCheckActions: 1, GroupP: 0.25}
+			if bigShapes && index%4 == 1 {
+				o = plangen.Opts{MaxBlocks: 2, MaxSeqs: 2, MaxActions: 2, MaxCheckActions: 2, GroupP: 0.3}
+			}
 		}
 		g := plangen.New(seed, o)
 		p := g.Plan()
@@ -920,8 +924,10 @@ func child(index int, resPath string) {
 			iv.mu.Unlock()
 		}
 		hashParts = append(hashParts, fmt.Sprint(vaultKind, staleDesc, crashJ))
-		term := core.App("Build_case", plancoq.Time(t0), plancoq.Time(t1), core.Z(int64(mk.D)), core.B(recovery),
-			core.List(beforeTerms), core.List(obsTerms), core.Nat(vaultKind), core.List(staleIx),
+		// the case term is  (Build_case maxage recovery store stale [run; ..]): the store is written once per
+		// store (head), every run of the store adds one run term
+		head := core.Sprintf("Build_case %s %s %s %s", core.Z(int64(mk.D)), core.B(recovery), core.List(beforeTerms), core.List(staleIx))
+		term := core.App("Build_run", plancoq.Time(t0), plancoq.Time(t1), core.List(obsTerms), core.Nat(vaultKind),
 			core.Nat(crashJ), plancoq.Time(t2), plancoq.Time(t3))
 		statuses := []string{}
 		for _, d := range descs {
@@ -944,7 +950,7 @@ func child(index int, resPath string) {
 			Coq:        term,
 			Nontrivial: nontrivial,
 			Hash:       core.Hash(hashParts...),
-			Dist:       map[string]any{"plans": len(plansB), "recovery": recovery, "max_age": mk.Name, "file_backed": fileBacked, "statuses": statuses, "new_ms": t1.Sub(t0).Milliseconds(), "slack_ms": t1.Sub(tCraft).Milliseconds(), "stray_writes": stray, "option_order": optOrder, "indexed_vault": indexed, "stale_index_plans": staleDesc, "vault_call_order": callOrder, "calls_before_recovery": early, "crash_after_write": crashJ},
+			Dist:       map[string]any{"plans": len(plansB), "recovery": recovery, "max_age": mk.Name, "file_backed": fileBacked, "statuses": statuses, "new_ms": t1.Sub(t0).Milliseconds(), "slack_ms": t1.Sub(tCraft).Milliseconds(), "stray_writes": stray, "option_order": optOrder, "indexed_vault": indexed, "stale_index_plans": staleDesc, "vault_call_order": callOrder, "calls_before_recovery": early, "crash_after_write": crashJ, "group": index, "case_head": head},
 			Input:      map[string]any{"seed": core.Seed(), "index": index, "max_age_ns": int64(mk.D), "max_age_option_passed": mk.Pass, "recovery": recovery, "file_backed": fileBacked, "crash_after_write": crashJ},
 			Observed:   descs,
 		}
